@@ -86,3 +86,12 @@ Proof.
   exact (conj (mz_ts_monotone t c s m ts row eff) (mz_ts_ignored_without_endpoint t c s m ts row eff)).
 Qed.
 Print Assumptions C13_ts_never_widens.
+
+(* the carve-out of "a refused message changes nothing": before dispatch MessageHandler records the message's ts as the
+   SENDING endpoint's own remote log position.  That happens only for a connection with an Endpoint object and only for a
+   newer ts; it concerns nobody but the sender (class "session" of C13_sound) *)
+Theorem C13_log_position_only_own_endpoint : forall t c s m ts row eff,
+  mz_rlp (mz_handle t c s m ts row eff) = true ->
+  (exists z, mz_cauth s = true /\ mz_cident s = Some z) /\ ts = MzTsNew.
+Proof. exact mz_rlp_only_own_endpoint. Qed.
+Print Assumptions C13_log_position_only_own_endpoint.
